@@ -41,7 +41,9 @@ type fnode struct {
 	exec   *world.ExecDouble
 	n      *node.FullNode
 	cancel context.CancelFunc
-	done   chan error
+	// buildCancel ends the context the node was constructed with (only after Run returned or was given up)
+	buildCancel context.CancelFunc
+	done        chan error
 	dir    string
 	db     datastore.Batching
 	keep   bool // keep the root directory at stop (the node is restarted on it)
@@ -77,7 +79,7 @@ func newFNodeOn(c *Ctx, w *world.World, name string, aggregator bool, arm func(*
 	conf.P2P.ListenAddress = "/ip4/127.0.0.1/tcp/0"
 	conf.RPC.Address = "127.0.0.1:0"
 	conf.Instrumentation = &config.InstrumentationConfig{}
-	f := &fnode{c: c, w: w, name: name, dir: dir, atGate: map[string]chan struct{}{"exec": make(chan struct{}, 1024), "final": make(chan struct{}, 1024)}}
+	f := &fnode{c: c, w: w, name: name, dir: dir, atGate: map[string]chan struct{}{"exec": make(chan struct{}, 1024), "final": make(chan struct{}, 1024), "gettxs": make(chan struct{}, 1024)}}
 	f.exec = world.NewExecDouble(c.Tr, name, w.IDs)
 	f.db = dssync.MutexWrap(datastore.NewMapDatastore())
 	if prev != nil {
@@ -102,16 +104,21 @@ func newFNodeOn(c *Ctx, w *world.World, name string, aggregator bool, arm func(*
 	if err != nil {
 		return nil, err
 	}
+	// the node is constructed with one context and run with another one derived for this run (as an embedding
+	// application does, and as Run itself does for its workers)
+	buildCtx, buildCancel := context.WithCancel(context.Background())
+	f.buildCancel = buildCancel
 	ctx, cancel := context.WithCancel(context.Background())
 	f.cancel = cancel
 	var sg = w.Signer
 	if !aggregator {
 		sg = nil
 	}
-	nd, err := node.NewNode(ctx, conf, f.exec, coresequencer.NewDummySequencer(), w.DA, sg, pc, w.Genesis,
+	nd, err := node.NewNode(buildCtx, conf, f.exec, coresequencer.NewDummySequencer(), w.DA, sg, pc, w.Genesis,
 		f.db, node.DefaultMetricsProvider(&config.InstrumentationConfig{}), logger, node.NodeOptions{})
 	if err != nil {
 		cancel()
+		buildCancel()
 		return nil, err
 	}
 	f.n = nd.(*node.FullNode)
@@ -166,6 +173,10 @@ func (f *fnode) stop(how string) (hung bool) {
 		f.cancel()
 		closeGate(f.exec.Gate)
 		closeGate(f.exec.FinalGate)
+		closeGate(f.exec.TxsGate)
+	}
+	if f.buildCancel != nil {
+		f.buildCancel()
 	}
 	if !f.keep {
 		os.RemoveAll(f.dir)
@@ -209,22 +220,25 @@ type fnScenario struct {
 	gateExec   bool   // hold the next ExecuteTxs
 	gateFinal  bool   // hold the next SetFinal
 	how        string // cancel | execfail (a worker reports a fatal error by itself)
+	gateTxs    bool   // hold the mempool query of the reaper (GetTxs)
 }
 
 // RunFullNode runs every stop scenario once (quick) or three times with varied timing (thorough).
 func RunFullNode(c *Ctx) {
 	scen := []fnScenario{
-		{"agg/idle", true, false, false, "cancel"},
-		{"agg/in-exec", true, true, false, "cancel"},
-		{"agg/in-final", true, false, true, "cancel"},
-		{"agg/in-exec+final", true, true, true, "cancel"},
-		{"agg/execfail", true, false, false, "execfail"},
-		{"agg/execfail-in-final", true, false, true, "execfail"},
-		{"full/idle", false, false, false, "cancel"},
-		{"full/in-exec", false, true, false, "cancel"},
-		{"full/in-final", false, false, true, "cancel"},
-		{"full/in-exec+final", false, true, true, "cancel"},
-		{"full/execfail-in-final", false, false, true, "execfail"},
+		{"agg/idle", true, false, false, "cancel", false},
+		{"agg/in-gettxs", true, false, false, "cancel", true},
+		{"agg/execfail-in-gettxs", true, false, false, "execfail", true},
+		{"agg/in-exec", true, true, false, "cancel", false},
+		{"agg/in-final", true, false, true, "cancel", false},
+		{"agg/in-exec+final", true, true, true, "cancel", false},
+		{"agg/execfail", true, false, false, "execfail", false},
+		{"agg/execfail-in-final", true, false, true, "execfail", false},
+		{"full/idle", false, false, false, "cancel", false},
+		{"full/in-exec", false, true, false, "cancel", false},
+		{"full/in-final", false, false, true, "cancel", false},
+		{"full/in-exec+final", false, true, true, "cancel", false},
+		{"full/execfail-in-final", false, false, true, "execfail", false},
 	}
 	reps := 1
 	if c.Thorough() {
@@ -323,6 +337,9 @@ func runFNScenario(c *Ctx, run string, s fnScenario) {
 		if s.gateFinal {
 			e.FinalGate = tokens(finalPass)
 		}
+		if s.gateTxs {
+			e.TxsGate = tokens(3)
+		}
 	}
 	var target *fnode
 	if s.aggregator {
@@ -358,7 +375,10 @@ func runFNScenario(c *Ctx, run string, s fnScenario) {
 	if holdExec {
 		ok = ok && target.waitGate("exec", execPass+1, 15*time.Second)
 	}
-	if !holdExec && !s.gateFinal {
+	if s.gateTxs {
+		ok = ok && target.waitGate("gettxs", 4, 15*time.Second)
+	}
+	if !holdExec && !s.gateFinal && !s.gateTxs {
 		ok = waitFor(15*time.Second, func() bool { return target.height() >= 3 })
 	}
 	if !ok { // the schedule could not be set up (not a verdict): stop and leave
@@ -366,6 +386,7 @@ func runFNScenario(c *Ctx, run string, s fnScenario) {
 		target.cancel()
 		closeGate(target.exec.Gate)
 		closeGate(target.exec.FinalGate)
+		closeGate(target.exec.TxsGate)
 		select {
 		case <-target.done:
 		case <-time.After(nodeRunBound):
